@@ -190,6 +190,7 @@ func run(r *vk.Run, c Case) (reachedCrash []bool) {
 			fmt.Sscanf(parts[1], "%d", &k)
 			s.n.DS.CrashAfter(k)
 			relBefore := len(s.proxy.released)
+			cutWithBatch := false
 			if parts[0] == "crash-reap" {
 				s.reaper.SubmitTxs()
 			} else {
@@ -203,9 +204,7 @@ func run(r *vk.Run, c Case) (reachedCrash []bool) {
 				for i := relBefore; i < len(s.proxy.released); i++ {
 					s.lostAllowed[s.proxy.released[i].ID] = true
 					if s.proxy.released[i].Kind == world.SeqTxs && parts[0] == "crash-prod" {
-						// a non-empty batch was handed to a production step that the crash cut (how the node lays out its
-						// writes is not looked at: whether the batch is lost shows in the chain at the end)
-						takeBeforeSave = true
+						cutWithBatch = true
 					}
 				}
 			}
@@ -214,6 +213,15 @@ func run(r *vk.Run, c Case) (reachedCrash []bool) {
 				return reachedCrash
 			}
 			r.Hit("restart-after-crash")
+			if cutWithBatch {
+				// the known loss: a non-empty batch was handed to the production step the crash cut, and the image the crash
+				// left holds no block above the chain height - the block that was to carry the batch had not been saved yet
+				// (decided from the store after the restart, not from how the node lays out its writes)
+				tip, _ := s.n.Store.Height(ctx)
+				if _, _, err := s.n.Store.GetBlockData(ctx, tip+1); err != nil {
+					takeBeforeSave = true
+				}
+			}
 		}
 	}
 	// quiescence: no new transactions; reap and produce until everything taken must have gone through
